@@ -1,23 +1,19 @@
 #!/bin/sh
-# verify every collected mutant in a scratch worktree: applies, suite passes, demo fails with / passes without
-WT=/tmp/wt_verify
+# re-verify every kept seeded change against the CURRENT /repo HEAD in a scratch worktree:
+# the patch applies, the 62 tests pass with it, the demonstration fails with it and passes without it
+WT=/tmp/wt_verify_seeded
 git -C /repo worktree remove --force $WT 2>/dev/null
 git -C /repo worktree add --detach $WT HEAD >/dev/null 2>&1 || exit 2
-out=${1:-/tmp/verify.txt}; : > $out
-for d in /verif/seeded/incoming/agent_out*_*/[A-Z] /verif/seeded/incoming/agent_out*_*/extra_C /verif/seeded/incoming/agent_out*_*/C_bonus; do
-  [ -f $d/patch.diff ] || continue
-  name=$(echo $d | sed 's#.*incoming/agent_##')
-  patch=$d/patch.diff
-  port=/verif/seeded/ported/$(echo $name | tr '/' '_').diff
+out=${1:-/verif/seeded/VERIFIED.txt}; : > $out
+echo "# verified against /repo $(git -C /repo rev-parse --short HEAD) by tools/verify_seeded.sh" >> $out
+for d in /verif/seeded/C*/; do
+  id=$(basename $d)
   cd $WT && git checkout -q -- . && git clean -fdq
-  if ! git apply --check $patch 2>/dev/null; then
-    if [ -f $port ] && git apply --check $port 2>/dev/null; then patch=$port; else echo "$name NOAPPLY" | tee -a $out; continue; fi
-  fi
-  demo=$d/demo.py
-  PYTHONPATH=$WT timeout 120 /venv/bin/python $demo >/dev/null 2>&1; clean=$?
-  git apply $patch
-  suite=$(timeout 300 /venv/bin/python -m pytest -q -p no:cacheprovider --timeout=900 -q 2>&1 | tail -1 | sed 's/=//g')
-  PYTHONPATH=$WT timeout 120 /venv/bin/python $demo >/dev/null 2>&1; mut=$?
-  echo "$name patch=$(basename $patch) demo_clean_rc=$clean demo_mutant_rc=$mut suite:$suite" | tee -a $out
+  if ! git apply --check $d/patch.diff 2>/dev/null; then echo "$id NOAPPLY" | tee -a $out; continue; fi
+  PYTHONPATH=$WT timeout 180 /venv/bin/python $d/demo.py >/dev/null 2>&1; clean=$?
+  git apply $d/patch.diff
+  suite=$(timeout 300 /venv/bin/python -m pytest -q -p no:cacheprovider --timeout=900 -q 2>&1 | tail -1 | sed 's/=//g; s/ in [0-9.]*s//')
+  PYTHONPATH=$WT timeout 180 /venv/bin/python $d/demo.py >/dev/null 2>&1; mut=$?
+  echo "$id demo_without_patch_rc=$clean demo_with_patch_rc=$mut suite_with_patch:$suite" | tee -a $out
 done
 cd / && git -C /repo worktree remove --force $WT
